@@ -62,10 +62,11 @@ def touch(path):
     except OSError:
         pass
 
-def run(cmd, **kw):
+def run(cmd, quiet=False, **kw):
     r = subprocess.run(cmd, stdout=subprocess.PIPE, stderr=subprocess.STDOUT, text=True, **kw)
     if r.returncode != 0:
-        sys.stderr.write("BUILD FAILED: " + " ".join(cmd) + "\n" + r.stdout[-6000:] + "\n")
+        if not quiet:
+            sys.stderr.write("BUILD FAILED: " + " ".join(cmd) + "\n" + r.stdout[-6000:] + "\n")
         raise SystemExit(3)
     return r.stdout
 
@@ -150,13 +151,13 @@ class Builder:
         srcs = ["verilated.cpp", "verilated_threads.cpp"] + (["verilated_vcd_c.cpp"] if trace else [])
         return [self.obj(os.path.join(VROOT, "include", s), [], [], "-O1") for s in srcs]
 
-    def link(self, name, objs, libs=()):
+    def link(self, name, objs, libs=(), quiet=False):
         self.flush()
         key = sha("link", name, " ".join(sorted(objs)), " ".join(libs), SAN, "cov" if COV else "")
         exe = os.path.join(BUILD, "bin", "%s-%s" % (name, key))
         if not os.path.exists(exe):
             tmp = exe + ".tmp%d" % os.getpid()
-            run([CXX] + LINK_SAN + ["-o", tmp] + objs + ["-Wl,--wrap=exit", "-ldl", "-pthread"] + list(libs))
+            run([CXX] + LINK_SAN + ["-o", tmp] + objs + ["-Wl,--wrap=exit", "-ldl", "-pthread"] + list(libs), quiet=quiet)
             os.replace(tmp, exe)
         touch(exe)
         return exe
@@ -210,7 +211,14 @@ def build_harness(which):
         tb = b.obj(os.path.join(REPO, "hextb.cpp"), ["-I" + d, "-Dmain=hextb_main"], rh + mh, "-O1")
         sim = b.obj(os.path.join(REPO, "hexsim.cpp"), ["-Dmain=hexsim_main"], rh, "-O1")
         main = b.obj(H("tbsim.cpp"), ["-I" + d], rh + vh + mh, "-O1")
-        return b.link("tbsim", [main, tb, sim, host, hexo] + mo + b.verilated_runtime(trace=True))
+        try:
+            return b.link("tbsim", [main, tb, sim, host, hexo] + mo + b.verilated_runtime(trace=True), quiet=True)
+        except SystemExit:
+            # hextb.cpp's load()/run() no longer have the signatures the planted runs call: go through main() only.
+            sys.stderr.write("NOTE: tbsim does not link against this tree's hextb.cpp internals (load/run signature changed?); "
+                             "planted power-on states fall back to seeds through main()\n")
+            main = b.obj(H("tbsim.cpp"), ["-I" + d, "-DTBSIM_NO_PLANT"], rh + vh + mh, "-O1")
+            return b.link("tbsim", [main, tb, sim, host, hexo] + mo + b.verilated_runtime(trace=True))
     if which in ("hostsim", "toolsim"):
         tools = [
             b.obj(os.path.join(REPO, "hexsim.cpp"), ["-Dmain=hexsim_main"], rh, "-O1"),
